@@ -1,6 +1,7 @@
 package props
 
 import (
+	"bytes"
 	"encoding/json"
 	"fmt"
 	"strings"
@@ -247,19 +248,30 @@ func runC05(e *core.Env) error {
 	for h := 0; h < nHist && !e.OverBudget(); h++ {
 		rr := r.Fork()
 		chain := transferChain(4+rr.Intn(4), uint64(1+rr.Intn(1000)))
+		fewAddrs := rr.Bool()
+		if fewAddrs {
+			// only three participants: the SAME address is looked up again and again, sometimes before and
+			// sometimes after the referenced integration has recorded it
+			chain = simnode.NewChain(10+rr.Intn(5), simnode.GenOpts{Salt: uint64(1 + rr.Intn(1000)), MakeTx: recurringMakeTx})
+		}
 		w, err := newWorld(e, chain)
 		if err != nil {
 			return err
+		}
+		if fewAddrs {
+			w.mkTx = recurringMakeTx
 		}
 		// A (and A2): referenced integrations storing the Transfer `to` address; B: references them
 		a := transferIG("iga", "ta", []string{"block_time"}, nil)
 		a2 := transferIG("iga2", "ta2", []string{"block_time", "log_addr"}, nil)
 		two := rr.Bool()
-		onInput := rr.Bool()
+		onInput := rr.Bool() && !fewAddrs
+		bOp := "contains"
 		b := transferIG("igb", "tb", []string{"block_time", "log_addr", "tx_signer"}, func(ci *config.Integration) {
 			if onInput {
 				ci.Event.Inputs = append([]dig.Input{}, ci.Event.Inputs...)
-				ci.Event.Inputs[1].Filter = dig.Filter{Op: core.Pick(rr, []string{"contains", "!contains"}), Ref: dig.Ref{Integration: "iga", Column: "ev_to"}}
+				bOp = core.Pick(rr, []string{"contains", "!contains"})
+				ci.Event.Inputs[1].Filter = dig.Filter{Op: bOp, Ref: dig.Ref{Integration: "iga", Column: "ev_to"}}
 			} else {
 				for j := range ci.Block {
 					if ci.Block[j].Name == "log_addr" {
@@ -406,8 +418,63 @@ func runC05(e *core.Env) error {
 			}
 			pg2.Close()
 		}
+		// ---- "its lookups always see the complete referenced data for the block being processed":
+		// computed from the node's chain alone. When B processed block n, iga had recorded every block <= n,
+		// so a Transfer of block n whose looked-up value occurs in iga's column within blocks 1..n MUST
+		// have produced a row of B (membership filter, or-aggregation: one accepting filter suffices).
+		if bOp == "contains" && !w.dead {
+			var chainNow *simnode.Chain
+			w.node.With(func(c *simnode.Chain) { chainNow = c.Clone() })
+			tb := byName["igb"]
+			_, topB, hasB, _ := w.taskRows(tb)
+			have := map[string]bool{}
+			for _, r := range w.pg.Rows("tb") {
+				if r["ig_name"] == "igb" {
+					have[fmt.Sprintf("%s/%s/%s", renderPG(r["block_num"]), renderPG(r["tx_idx"]), renderPG(r["log_idx"]))] = true
+				}
+			}
+			seenVals := map[string]bool{} // iga's column values in blocks 1..n
+			sig := transferEvent.SignatureHash()
+			verdict, checked := "ok", 0
+			for n := 1; hasB && n < len(chainNow.Blocks) && uint64(n) <= topB; n++ {
+				blk := &chainNow.Blocks[n]
+				for ti := range blk.Txs {
+					for li := range blk.Txs[ti].Logs {
+						l := &blk.Txs[ti].Logs[li]
+						if len(l.Topics) == 3 && bytes.Equal(l.Topics[0], sig) {
+							if onInput {
+								seenVals[fmt.Sprintf("%x", l.Topics[2][12:])] = true // iga.ev_to
+							} else {
+								seenVals[fmt.Sprintf("%x", l.Topics[1][12:])] = true // iga.ev_from
+							}
+						}
+					}
+				}
+				for ti := range blk.Txs {
+					for li := range blk.Txs[ti].Logs {
+						l := &blk.Txs[ti].Logs[li]
+						if len(l.Topics) != 3 || !bytes.Equal(l.Topics[0], sig) {
+							continue
+						}
+						v := fmt.Sprintf("%x", l.Addr)
+						if onInput {
+							v = fmt.Sprintf("%x", l.Topics[2][12:])
+						}
+						if seenVals[v] {
+							checked++
+							key := fmt.Sprintf("n:%d/n:%d/n:%d", blk.Num, blk.Txs[ti].Idx, l.Idx)
+							if !have[key] && verdict == "ok" {
+								verdict = fmt.Sprintf("block %d tx %d log %d: the looked-up value %s is in iga's column within blocks 1..%d, but igb has no row for this log", blk.Num, blk.Txs[ti].Idx, l.Idx, v, n)
+							}
+						}
+					}
+				}
+			}
+			e.Add(core.Case{Impl: verdict, Spec: "ok", Key: fmt.Sprintf("c05-complete %d", h), Nontrivial: checked > 0,
+				Tags: []string{"lookup-completeness", fmt.Sprintf("recurring-addresses=%v", fewAddrs)}, Detail: map[string]any{"history": strings.Split(strings.Join(w.ops, "\n"), "\n")}})
+		}
 		op, impl := w.caseOp()
-		e.Add(core.Case{Op: op, Impl: impl, Nontrivial: depSteps > 0, Tags: []string{fmt.Sprintf("two-refs=%v", two), fmt.Sprintf("on-input=%v", onInput), fmt.Sprintf("chain=%v", chainC), fmt.Sprintf("second-dependent=%v", sameCol)}, Key: fmt.Sprintf("c05 %d %d", h, e.Seed)})
+		e.Add(core.Case{Op: op, Impl: impl, Nontrivial: depSteps > 0, Tags: []string{fmt.Sprintf("two-refs=%v", two), fmt.Sprintf("on-input=%v", onInput), fmt.Sprintf("chain=%v", chainC), fmt.Sprintf("second-dependent=%v", sameCol), fmt.Sprintf("recurring-addresses=%v", fewAddrs)}, Key: fmt.Sprintf("c05 %d %d", h, e.Seed)})
 		w.close()
 	}
 	cfgDepsCases(e)
@@ -737,3 +804,20 @@ func runC06(e *core.Env) error {
 }
 
 var _ = wpg.Column{}
+
+// recurringMakeTx: like transferMakeTx, but the participants of the Transfers rotate through seven fixed
+// addresses with the block number: the address a log is emitted BY at block n is the SENDER three
+// blocks later - so a lookup "log_addr in senders recorded so far" is first negative and, once the
+// referenced integration has passed that block, positive for the same value
+func recurringMakeTx(salt, num, idx uint64, tx *simnode.Tx) {
+	transferMakeTx(salt, num, idx, tx)
+	who := func(k uint64) []byte { return simnode.Derive("participant", k%7)[:20] }
+	for i := range tx.Logs {
+		l := &tx.Logs[i]
+		if len(l.Topics) == 3 && bytes.Equal(l.Topics[0], transferEvent.SignatureHash()) {
+			l.Topics[1] = padAddr(who(num))
+			l.Topics[2] = padAddr(who(num + 5))
+			l.Addr = who(num + 3)
+		}
+	}
+}
